@@ -440,6 +440,84 @@ def case_cli(ctx, which, lo, hi, rseed):
                        sample={"argv": argv, "variables": F.number_of_variables(), "clauses": len(F)})
 
 
+def case_wide_parity(ctx, width, via):
+    """One parity constraint on 21 (thorough: 22) literals -- 2^20 clauses -- through add_parity, through Tseitin on a star
+    and through xor substitution of a unit clause: the formula owns exactly the documented variables and every literal
+    lies inside them."""
+    import cnfgen as g
+    from cnfgen.formula.cnf import CNF
+    from cnfgen.graphs import Graph
+    before = snapshot_events()
+    with alloc.watch() as mon:
+        if via == "add_parity":
+            F = CNF()
+            F.update_variable_number(width)
+            st, _ = ctx.call(F.add_parity, list(range(1, width + 1)), 1)
+            expected, label = width, "CNF().add_parity(1..%d, 1)" % width
+        elif via == "tseitin":
+            G = Graph(width + 1)
+            for v in range(2, width + 2):
+                G.add_edge(1, v)
+            st, F = ctx.call(g.TseitinFormula, G)
+            expected, label = width, "TseitinFormula(star with %d arms)" % width
+        else:
+            F0 = CNF([[1]])
+            st, F = ctx.call(g.XorSubstitution, F0, width)
+            expected, label = width, "XorSubstitution(CNF([[1]]), %d)" % width
+    account(ctx, before)
+    ctx.count("wide_parity_entries")
+    if st == "exc":
+        ctx.violation("wide-parity:raises:%s" % type(F if via != "add_parity" else _).__name__, "%s raised %r" % (label, F if via != "add_parity" else _))
+        return
+    report(ctx, label, mon, None)
+    n = F.number_of_variables()
+    if n != expected:
+        ctx.violation("count:wide-parity(%s)" % via, "%s declares %d variables, documented %d" % (label, n, expected))
+    top = 0
+    for cl in F:
+        for l in cl:
+            if type(l) is not int or l == 0:
+                ctx.violation("scan:literal", "%s has the literal %r" % (label, l))
+                return
+            if abs(l) > top:
+                top = abs(l)
+    if top > n:
+        ctx.violation("scan:literal", "%s mentions variable %d with %d declared variables" % (label, top, n))
+    nv = F.new_variable("after")
+    if nv <= top:
+        ctx.violation("alloc:new-variable-reuses-mentioned-variable", "%s: a variable created afterwards got identifier %d, the clauses mention up to %d" % (label, nv, top))
+    ctx.judged(("wide-parity", width, via), nontrivial=True, sample={"entry": label, "clauses": len(F)})
+
+
+def case_latex_declared_counts(ctx):
+    """LaTeX documents of both tools: the sentence 'with N variables and M clauses / constraints' must state the
+    numbers of the formula object (N is the declared number of variables this property speaks of)."""
+    import re
+    from ..cliharness import run_main
+    for tail in (["php", "4", "3"], ["php", "3", "3", "--functional"], ["op", "4"], ["tseitin", "first", "grid", "2", "3"], ["count", "5", "2"],
+                 ["kcolor", "3", "complete", "4"], ["and", "3", "2"], ["true"], ["false"], ["subsetcard", "complete", "3", "4"], ["vdw", "5", "2", "2", "3"],
+                 ["bphp", "5", "3"], ["cliquecoloring", "4", "3", "2"]):
+        for tool in ("cnfgen", "pbgen"):
+            try:
+                F = cli_formula(tool, [tool, "-q"] + tail)
+            except BaseException as e:      # noqa: BLE001
+                if isinstance(e, KeyboardInterrupt) or type(e).__name__ == "CaseTimeout":
+                    raise
+                continue
+            o = run_main(tool, ["-of", "latex"] + tail)
+            ctx.count("latex_documents_checked")
+            if o.exc is not None or o.rc not in (0, None):
+                continue
+            m = re.search(r"with (\d+) variables and (?:and )?(\d+) (clauses|constraints)", o.out)
+            if not m:
+                ctx.count("latex_document_without_size_sentence")
+                continue
+            if int(m.group(1)) != F.number_of_variables() or int(m.group(2)) != len(F):
+                ctx.violation("count:latex-document-declares-other-numbers", "`%s -of latex %s` says %r, the formula has %d variables and %d %s"
+                              % (tool, " ".join(tail), m.group(0), F.number_of_variables(), len(F), m.group(3)))
+            ctx.judged(("latex-counts", tool, tuple(tail)), nontrivial=True, sample={"command": "%s -of latex %s" % (tool, " ".join(tail))})
+
+
 def case_interleave(ctx, rseed, count):
     """Random histories of group creation, checked clause insertion and explicit raises of the count."""
     from cnfgen.formula.cnf import CNF
@@ -747,6 +825,10 @@ def case_repo_tests(ctx):
 def workload(tier, seed):
     q = tier == "quick"
     n = 62
+    yield "latex_declared_counts", {}
+    # first: 2^20 clauses each, they run alongside everything else
+    for via in ("tseitin", "add_parity", "xor") if q else ("tseitin", "add_parity", "xor", "tseitin22"):
+        yield "wide_parity", {"width": 22 if via.endswith("22") else 21, "via": via.replace("22", "")}
     for rs in range(1 if q else 10):
         for lo in range(0, n, 3):
             yield "library", {"rseed": seed * 100 + rs, "lo": lo, "hi": lo + 3}
